@@ -703,3 +703,65 @@ def closure_capture_ops(parent, closure_key):
                     strip_generics(s["rv"]["closure"]) == closure_key:
                 out.append((b.idx, s["rv"]["ops"]))
     return out
+
+
+# ------------------------------------------------------------------ dominating switch guards
+def switch_guards(body, target_bb, unwind=False, dom=None, _depth=3):
+    """For every SwitchInt that dominates `target_bb`: which edge labels can lead to it.
+    Returns list of dicts {bb, src, allowed (set of ints and/or 'otherwise'), listed (list of ints)}.
+    Boolean merge temporaries (`matches!`, `&&`, `||`: a local assigned only constants, then
+    switched on) are seen through: when exactly one constant definition is compatible with the
+    allowed labels, the guards of that defining block are added (flagged via=...)."""
+    dom = dom or body.dominators(unwind)
+    out = []
+    if target_bb not in dom:
+        return out
+    for S in sorted(dom[target_bb]):
+        t = body.blocks[S].term
+        if t["k"] != "switch" or S == target_bb:
+            continue
+        labels = defaultdict(set)
+        for v, tgt in t["arms"]:
+            labels[tgt].add(v)
+        labels[t["otherwise"]].add("otherwise")
+        allowed = set()
+        for tgt, ls in labels.items():
+            r = body.reachable([tgt], unwind, avoid=[S])
+            if target_bb in r:
+                allowed |= ls
+        l = op_local(t["discr"])
+        src = discr_source(body, l) if l is not None else {"kind": "place", "place": op_place(t["discr"])}
+        listed = [a[0] for a in t["arms"]]
+        out.append({"bb": S, "src": src, "allowed": allowed, "listed": listed, "discr_local": l})
+        # see through constant-merge temporaries
+        if l is not None and _depth > 0:
+            root = l
+            d = body.unique_def(l)
+            if d and d[2] == "assign" and d[3]["rv"]["k"] == "use" and op_local(d[3]["rv"]["op"]) is not None:
+                root = op_local(d[3]["rv"]["op"])
+            defs = body.defs().get(root, [])
+            if len(defs) >= 2 and all(k == "assign" and p["rv"]["k"] == "use" and p["rv"]["op"].get("k") == "const"
+                                      and "val" in p["rv"]["op"] for _b, _i, k, p in defs):
+                compat = []
+                for dbb, _i, _k, p in defs:
+                    v = p["rv"]["op"]["val"]
+                    lab = v if v in listed else "otherwise"
+                    if lab in allowed:
+                        compat.append(dbb)
+                if len(compat) == 1:
+                    for g in switch_guards(body, compat[0], unwind, dom, _depth - 1):
+                        g = dict(g)
+                        g["via"] = S
+                        out.append(g)
+    return out
+
+
+def place_root_slice(body, place, **kw):
+    return Slice(body, **kw).run({"k": "copy", "place": place})
+
+
+def guard_src_place(src):
+    """The place whose discriminant / value a guard source inspects, if any."""
+    if src.get("kind") in ("discr", "place"):
+        return src.get("place")
+    return None
